@@ -11,6 +11,10 @@ from harness import rules, common
 from harness.common import Ctx, NCPU, s2n
 
 
+# identifiers with letters outside ASCII (legal module names)
+NONASCII = ["gr\u00f6\u00dfe_svc", "z\u00e4hler", "caf\u00e9", "\u03b4elta", "\u00df_mod", "pkg_\u00e9", "a", "ab", "\u044f"]
+
+
 def regex_pool(rng, nodes):
     """Regexes drawn from the graph's own names."""
     n1, n2 = rng.choice(nodes), rng.choice(nodes)
@@ -24,6 +28,9 @@ def regex_pool(rng, nodes):
         re.escape(parent) + r"\.[a-zA-Z_]\w*$",            # character classes: direct children
         re.escape(parent) + r"\.[" + re.escape(last[0]) + r"]\w*$",
         r".*\." + re.escape(last) + "$",                   # by last component
+        re.escape(parent) + r"\.\w+$",                      # \w, \b and (?i) are Unicode aware: module names need not be ASCII
+        re.escape(parent) + r"\.\w*\b",
+        "(?i)" + re.escape(n1.upper()) + "$",
         re.escape(n1) + r"\.nothing_here$",                # matches nothing
         r"zz.*",                                           # matches nothing
     ]
@@ -44,7 +51,7 @@ def _job(args):
     glob_cases = []
     while len(cases) < n:
         large = rng.random() < 0.1          # now and then beyond hand-written sizes
-        pool = rules.LARGE_POOL if large else rng.choice((rules.COLLISION_FREE, rules.ADVERSARIAL))
+        pool = rules.LARGE_POOL if large else rng.choice((rules.COLLISION_FREE, rules.ADVERSARIAL, NONASCII))
         nodes = rules.rand_tree(rng, pool, max_nodes=rng.choice([25, 40]), max_depth=7) if large else rules.rand_tree(rng, pool, max_nodes=rng.choice([5, 8, 12]))
         edges = rules.rand_edges(rng, nodes, 25 if large else 8)
         arch_nodes = nodes  # direct constructor: modules are exactly the nodes
